@@ -3,6 +3,7 @@ package reservation
 // C05 harnesses. Overlay-only; see /verif/DESIGN.md 5/C05.
 
 import (
+	"context"
 	corev1 "k8s.io/api/core/v1"
 	"k8s.io/apimachinery/pkg/api/resource"
 	metav1 "k8s.io/apimachinery/pkg/apis/meta/v1"
@@ -302,6 +303,22 @@ func ZzvC05Index() {
 }
 
 // ZzvC05Twin: must-fail twin (claims a pod fits whenever request <= allocatable).
+// ZzvC05AllocateOnce: an allocate-once reservation that already has an assigned pod is refused at
+// nomination (Plugin.FilterNominateReservation), whatever the amounts involved.
+func ZzvC05AllocateOnce() {
+	B := int64(1) << 40
+	r := zzvReservation("r", "n1", true, true, zzvAmt{true, zzverif.Int64("r.cpu", 0, B)}, zzvAmt{false, 0})
+	ri := frameworkext.NewReservationInfo(r)
+	k := 1 + zzverif.Choice("assignedPods", 2)
+	for i := 0; i < k; i++ {
+		ri.AddAssignedPod(zzvPod("a"+string(rune('0'+i)), zzvAmt{true, zzverif.Int64("a"+string(rune('0'+i))+".cpu", 0, B)}, zzvAmt{false, 0}))
+	}
+	pod := zzvPod("new", zzvAmt{true, zzverif.Int64("new.cpu", 0, B)}, zzvAmt{false, 0})
+	st := (&Plugin{}).FilterNominateReservation(context.TODO(), nil, pod, ri, "n1")
+	zzverif.Assert(!st.IsSuccess(), "an allocate-once reservation that already has an assigned pod is never nominated for another pod")
+	zzverif.Reach("end")
+}
+
 func ZzvC05Twin() {
 	B := int64(1) << 30
 	a, u, q := zzverif.Int64("allocatable", 0, B), zzverif.Int64("allocated", 0, B), zzverif.Int64("request", 1, B)
